@@ -24,6 +24,11 @@ const IANA: [(&str, u16); 96] = [
     ("IXFR", 251), ("AXFR", 252), ("MAILB", 253), ("MAILA", 254), ("ANY", 255), ("NB", 32),
 ];
 
+/// the IANA code of a type given by the library's spelling of its mnemonic
+pub fn iana_code(lib_mnemonic: &str) -> Option<u16> {
+    IANA.iter().find(|(m, _)| same_mnemonic(lib_mnemonic, m)).map(|(_, c)| *c)
+}
+
 fn same_mnemonic(lib: &str, iana: &str) -> bool {
     let norm = |s: &str| s.to_ascii_uppercase().replace('-', "_");
     norm(lib) == norm(iana) || (lib == "RouteThrough" && iana == "RT")
@@ -243,8 +248,13 @@ pub fn cases(_tier: &str, seed: u64) -> Vec<Case> {
     // alias, and not a question of an `Unknown` type
     for which in 0..2 {
         for w in 0..=65535u16 {
-            let mut wire = vec![0u8, 1, 0, 0, 0, 1, 0, 0, 0, 0, 0, 0, 1, b'a', 0];
+            // the question stands in a query, in a response (QR set, with flags and a response code), after another question,
+            // or before a record - what is accepted does not depend on where
+            let shape = (w as usize + which) % 4;
+            let mut wire = match shape { 1 => vec![0u8, 1, 0x85, 0x83, 0, 1, 0, 0, 0, 0, 0, 0], 2 => vec![0u8, 1, 0, 0, 0, 2, 0, 0, 0, 0, 0, 0, 1, b'b', 0, 0, 1, 0, 1], 3 => vec![0u8, 1, 0x84, 0, 0, 1, 0, 1, 0, 0, 0, 0], _ => vec![0u8, 1, 0, 0, 0, 1, 0, 0, 0, 0, 0, 0] };
+            wire.extend_from_slice(&[1, b'a', 0]);
             if which == 0 { wire.extend_from_slice(&w.to_be_bytes()); wire.extend_from_slice(&[0, 1]); } else { wire.extend_from_slice(&[0, 1]); wire.extend_from_slice(&w.to_be_bytes()); }
+            if shape == 3 { wire.extend_from_slice(&[1, b'a', 0, 0, 1, 0, 1, 0, 0, 0, 9, 0, 4, 10, 0, 0, 1]); }
             let parsed = Packet::parse(&wire);
             let out = match &parsed { Ok(p) => format!("ok {}", crate::text::packet(p)), Err(_) => "err".to_string() };
             let mut c = Case::new(format!("parse {}", crate::text::hex(&wire)), out).tag(if which == 0 { "question-type" } else { "question-class" });
@@ -253,7 +263,7 @@ pub fn cases(_tier: &str, seed: u64) -> Vec<Case> {
             let supported = if which == 0 { !matches!(TYPE::from(w), TYPE::Unknown(_)) || (251..=255).contains(&w) } else { [1u16, 2, 3, 4, 254, 255].contains(&(w & 0x7FFF)) };
             match &parsed {
                 Ok(p) => {
-                    let q = p.questions.first();
+                    let q = p.questions.last();
                     if !supported { c = c.fail("question-alias", format!("a question with {} word {:#06x} is accepted as {:?}", if which == 0 { "QTYPE" } else { "QCLASS" }, w, q.map(|q| (q.qtype, q.qclass)))); }
                     else if which == 0 && q.map(|q| u16::from(q.qtype)) != Some(w) { c = c.fail("question-read", format!("QTYPE word {:#06x}", w)); }
                     else if which == 1 && q.map(|q| (u16::from(q.qclass), q.unicast_response)) != Some((w & 0x7FFF, w & 0x8000 != 0)) { c = c.fail("question-read", format!("QCLASS word {:#06x}", w)); }
